@@ -3,6 +3,9 @@
 package boltz
 
 import (
+	"strings"
+	"time"
+
 	"go.etcd.io/bbolt"
 
 	"github.com/openziti/storage/ast"
@@ -15,6 +18,10 @@ var vC10StoreQueries = []string{
 	"isEmpty(from reports where s = \"x\")", "true sort by s skip 2", "s icontains \"x\" sort by s",
 	"true sort by i", "true sort by s desc, i", "true sort by boss", "true sort by tags.k",
 	"true sort by s limit 0", "true sort by i desc skip 1 limit 0", "true limit 0", "true sort by s skip -1 limit 1",
+	// a set symbol reached through a foreign key (composite set symbol), as a
+	// scalar inside a sub-query and under a null test of its count
+	"count(from reports where boss.roles = \"a\") > 0", "isEmpty(from reports where boss.roles != null)",
+	"count(boss.roles) = null", "count(boss.roles) != null", "count(reports.roles) = null", "anyOf(boss.roles) = \"a\"",
 	"count(from reports where true) = 0", "isEmpty(from roles where true)", "not isEmpty(from reports where boss = null)",
 }
 
@@ -72,5 +79,72 @@ func VerifC10_QueriesOnEmptyAndNullData() {
 		})
 		verifrt.Logf("panic message (if any): %v", msg) // not part of the label: executor and native wording differ
 		verifrt.Assert(!panicked, "C10 querying an empty store / null fields does not panic: "+q+"")
+	})
+}
+
+// ---- every left-operand kind the person store offers x every use ----
+
+var vC10StoreLhs = []string{"s", "i", "f", "o", "d", "n", "xs", "xb", "nn", "boss.f", "reports.d", "id", "roles", "boss", "boss.s", "boss.roles", "boss.boss.roles", "reports", "reports.s", "reports.roles", "reports.reports", "tags.k", "tags", "nosuch", "boss.nosuch"}
+
+func verifC10StoreShapes() []string {
+	var qs []string
+	for _, l := range vC10StoreLhs {
+		for _, w := range []string{"%s", "anyOf(%s)", "allOf(%s)", "count(%s)"} {
+			lhs := strings.Replace(w, "%s", l, 1)
+			for _, r := range []string{`= "a"`, `!= null`, `= null`, `> 1`, `in ["a", "b"]`, `contains "a"`, `between 1 and 3`} {
+				qs = append(qs, lhs+" "+r)
+			}
+		}
+		qs = append(qs, "isEmpty("+l+")", "not isEmpty("+l+")", `isEmpty(from reports where `+l+` = "a")`, `count(from reports where `+l+` != null) > 0`,
+			`count(from `+l+` where true) > 0`, "true sort by "+l, "true sort by "+l+" desc limit 1")
+	}
+	return qs
+}
+
+func init() {
+	verifQueryFamilies = append(verifQueryFamilies, verifC10StoreShapes)
+}
+
+// VerifC10_StoreQueryShapes: every kind of symbol the store offers (scalar, id,
+// set, foreign key, dotted scalar, set reached through a foreign key, set of
+// sets, map element, map, unknown) in every position (bare, under anyOf /
+// allOf / count / isEmpty, inside a sub-query's filter, as sub-query source, as
+// sort field) with every operator form: typing returns a query or an error,
+// and a typed query runs without panicking on entities whose fields are all
+// null and on entities that reference each other.
+func VerifC10_StoreQueryShapes() {
+	qs := verifC10StoreShapes()
+	q := qs[verifrt.Choose("query", len(qs))]
+	withData := verifrt.Bool("data")
+	env := verifNewEnv(vStoreCfg{nickNullable: true})
+	defer env.close()
+	store := verifNewPersonStore()
+	err := env.update(func(ctx MutateContext) error {
+		if err := store.Create(ctx, &vPerson{Id: "a"}); err != nil {
+			return err
+		}
+		if !withData {
+			return store.Create(ctx, &vPerson{Id: "ab"})
+		}
+		// "a" (smallest id) has every field null; the others carry values
+		sv, iv, boss, fv, ov, nv := "a", int64(1), "a", 1.5, true, int32(-1)
+		dv := time.Date(2020, 1, 2, 3, 4, 5, 0, time.UTC)
+		if err := store.Create(ctx, &vPerson{Id: "ab", S: &sv, I: &iv, Boss: &boss, Roles: []string{"a"}, Tag: int64(1), F: &fv, O: &ov, D: &dv, N: &nv}); err != nil {
+			return err
+		}
+		b2 := "ab"
+		return store.Create(ctx, &vPerson{Id: "b", S: &sv, Boss: &b2, Roles: []string{"a", "b"}, Tag: "a", F: &fv, D: &dv})
+	})
+	verifrt.Assert(err == nil, "C10 setup creates succeed")
+	env.view(func(tx *bbolt.Tx) {
+		panicked, msg := verifrt.Catch(func() {
+			_, _, _ = store.QueryIds(tx, q)
+			if parsed, perr := ast.Parse(store, q); perr == nil {
+				for c := store.IterateIds(tx, parsed); c.IsValid(); c.Next() {
+				}
+			}
+		})
+		verifrt.Logf("panic message (if any): %v", msg)
+		verifrt.Assert(!panicked, "C10 a query over any symbol kind in any position is typed or rejected and runs without panicking: "+q)
 	})
 }
